@@ -409,6 +409,8 @@ theorem gatherGo_spec {ss : Block} {rc : Nat → Nat} : ∀ (fuel src : Nat) (ch
           · rename_i kw op a b hkind
             split at h
             · cases h
+            split at h
+            · cases h
             · rename_i nop hneg
               dsimp only at h
               have htime := time_none_of_not_isSome ht
